@@ -5,11 +5,15 @@ from common import *
 from extract import Source, Raw
 
 ASSUMPTIONS = [
-    'DECLINED: page-by-page exactly-once, descending = reverse of ascending, the per-entry filters, grouping and the capacity sum - all inside '
-    'closures over RocksDB snapshot iterators (FFI); not encodable within reach',
-    'claimed: the one encodable fact those clauses rest on - the byte order of the index keys of one script equals the numeric order of '
-    '(block number, tx index, io index[, io type]), keys are injective and the key spaces are disjoint (real text of Key::into_vec / append_key / '
-    'extract_raw_data over a byte-vector model; scripts with 1-byte code hash / hash type and 0..=2 bytes of args)',
+    'bounded model checking of the real text of get_cells, get_cells_capacity, build_query_options, build_filter_options and of the key encoding over a READ-ONLY sorted '
+    'snapshot model of the index: <= 3 rows (quick: 2 for the filter / capacity / pagination harnesses) of arbitrary key space, script and position, 2 stored transactions with '
+    '<= 2 outputs; scripts are (1-byte code hash, 1-byte hash type, <= 2 bytes of args); RocksDB contract: ordered iteration from a seek key in both directions, point lookups, '
+    'one snapshot per call',
+    'the ground truth (rows matching the search key and each filter, in key order) is computed from the structured row fields, never from key bytes; filters follow the '
+    'documented meaning: script filter = raw-data prefix of the OTHER script, script length inclusive on both ends, data length / capacity / block range half-open',
+    'std iterator adaptors are replaced by a loop-free pipeline with the same lazy one-row-at-a-time semantics (CBMC cannot bound the nested find loops)',
+    'the index does not change between two pages (the property is stated for a stored index); capacity sums fit in u64',
+    'DECLINED / outside: get_transactions incl. group_by_transaction (page boundary rule), more than 3 rows, JSON (de)serialisation of the request / response types',
 ]
 
 
@@ -60,9 +64,12 @@ def obligations():
         KModelOb('O13.2-cells-order', 'cells', 'cells_order', 'get_cells (real text, with build_query_options / Key::into_vec): with a limit that does not cut, the result is exactly the entries whose '
                  'script continues the searched script, in key order (descending = reverse of ascending), each with the right out-point / output / data / block number / tx index; last_cursor is the '
                  'key of the last entry', ex_cells, B3 + '; no filter; limit >= 3', cuts=CELL_CUTS, timeout=1500, mem_gb=12, min_covers=2, weight=6, tiers=('quick',), **FS),
-        KModelOb('O13.3-cells-pages', 'cells', 'cells_pages_order', 'get_cells (real text): a first page of limit l1 followed by a page read from its last_cursor yields the first min(l1 + l2, matches) '
-                 'matching entries exactly once in key order, in both orders', ex_cells, B3 + '; no filter; l1 in 1..2, any l2 >= 1', cuts=CELL_CUTS, timeout=1800, mem_gb=16, min_covers=2,
-                 weight=7, tiers=('quick',), **FS),
+        KModelOb('O13.3-cells-pages', 'cells', 'cells_pages_small', 'get_cells (real text): a first page of one entry followed by a page read from its last_cursor yields the first min(1 + l2, matches) '
+                 'matching entries exactly once in key order, in both orders', ex_cells, '<= 2 index rows of arbitrary key space / script / position; no filter; l1 = 1, any l2 >= 1', cuts=CELL_CUTS, timeout=1500,
+                 mem_gb=12, min_covers=2, weight=6, tiers=('quick',), rustflags='--cfg cells_small', **FS),
+        KModelOb('O13.3-cells-pages-3', 'cells', 'cells_pages_order', 'get_cells (real text): a first page of limit l1 followed by a page read from its last_cursor yields the first min(l1 + l2, matches) '
+                 'matching entries exactly once in key order, in both orders', ex_cells, B3 + '; no filter; l1 in 1..2, any l2 >= 1', cuts=CELL_CUTS, timeout=3000, mem_gb=16, min_covers=2,
+                 weight=7, tiers=('thorough',), **FS),
         KModelOb('O13.2-cells-filters', 'cells', 'cells_filters_small', 'get_cells (real text, with build_filter_options): each filter removes exactly the entries outside it', ex_cells,
                  '<= 2 index rows; ' + F, cuts=CELL_CUTS, timeout=1500, mem_gb=12, min_covers=1, weight=5, tiers=('quick',), rustflags='--cfg cells_small', **FS),
         KModelOb('O13.4-capacity-sum', 'cells', 'capacity_sum_small', 'get_cells_capacity (real text) = capacity sum of exactly the cells get_cells returns for the same key, reported with the stored tip',
